@@ -1,15 +1,299 @@
 import FluentProofs.ResMgr
 /-!
 # C19 — ResourceManager: files loaded once, bundles per locale, I/O faults reported
+
+Model: `FluentModel.ResMgr` (`strReplace`, `pathOf`, `getResource`, `getBundle`, `getBundles`,
+`BundlesIter.next`, `stepReq`, `runReqs`), reusing the registry model of C10 for `add_resource`.
+
+Quantification.  `w : World` is an arbitrary function `read-time → path → io::Result<String>`: every
+file-system history (files present, missing, unreadable, a directory, invalid UTF-8, changed, deleted
+or created between any two reads — even inside one request) is an instance.  `parse` is an arbitrary
+total function (so every file content, with or without syntax errors, is covered).  `reqs : List Req`
+is an arbitrary history of `get_bundle`, `get_bundles` and `next()` calls on any of the iterators
+opened so far, in any interleaving.  Schemes, locales and resource ids are arbitrary byte strings.
+The property's precondition "non-empty locale list" appears as `locales ≠ []` / `loc :: ls`.
 -/
 namespace FluentProofs.C19
 open FluentModel FluentModel.Registry FluentModel.ResMgr
 
-/-- a bundle request with a non-empty locale list never panics, whatever the file system does -/
+/-! ## path_substitution -/
+
+/-- `replace`: a scheme without the placeholder is left alone. -/
+theorem C19_replace_no_placeholder (pat to s : Bytes) (h : ∀ k, k < s.length → ¬ pat <+: s.drop k) :
+    strReplace s pat to = s :=
+  strReplace_no_match pat to s h
+
+/-- `replace`: the leftmost occurrence is replaced first, the replacement text is not rescanned, and
+the rest of the string is treated the same way (these two equations determine the function). -/
+theorem C19_replace_leftmost_first (pat to u rest : Bytes) (hp : pat ≠ [])
+    (h : ∀ k, k < u.length → ¬ pat <+: (u ++ (pat ++ rest)).drop k) :
+    strReplace (u ++ (pat ++ rest)) pat to = u ++ (to ++ strReplace rest pat to) :=
+  strReplace_first_match pat to u rest hp h
+
+/-- **path_substitution.**  For a scheme built from literal text (without `{`) and the placeholders
+`{locale}` / `{res_id}` in ANY number, order and position (adjacent, repeated, first, last, absent),
+the path the manager reads is the scheme with every `{locale}` replaced by the locale and every
+`{res_id}` replaced by the resource id — for every resource id, including ids that themselves contain
+`{locale}` or `{res_id}` (they are not substituted again), and every locale text without `{`. -/
+theorem C19_path_substitution (segs : List Seg) (loc rid : Bytes)
+    (hl : ∀ s, Seg.lit s ∈ segs → Clean s) (hloc : Clean loc) :
+    pathOf (renderScheme segs) loc rid = substScheme loc rid segs :=
+  path_of_segments segs loc rid hl hloc
+
+/-! ## get_resource -/
+
+/-- cache hit: the cached resource, no read, no state change -/
+theorem C19_get_resource_hit (w : World) (parse : Bytes → Resource) (m : Mgr) (rid loc : Bytes) (r : Resource)
+    (h : cacheGet m.cache (pathOf m.scheme loc rid) = some r) :
+    getResource w parse m rid loc = (m, .ok r) := by
+  simp [getResource, h]
+
+/-- cache miss, readable file: **whatever the content** (syntax errors included) the request succeeds
+with the parse of the content, which is cached under the path -/
+theorem C19_get_resource_tolerates_any_content (w : World) (parse : Bytes → Resource) (m : Mgr)
+    (rid loc content : Bytes)
+    (h : cacheGet m.cache (pathOf m.scheme loc rid) = none)
+    (hw : w m.clock (pathOf m.scheme loc rid) = .ok content) :
+    (getResource w parse m rid loc).2 = .ok (parse content) ∧
+    cacheGet (getResource w parse m rid loc).1.cache (pathOf m.scheme loc rid) = some (parse content) := by
+  simp [getResource, h, hw, cacheGet_insert _ _ _ _ h]
+
+/-- cache miss, unreadable file (missing, directory, invalid UTF-8, …): the I/O error is returned —
+no panic — and nothing is cached -/
+theorem C19_get_resource_io_error (w : World) (parse : Bytes → Resource) (m : Mgr) (rid loc : Bytes) (e : IoErr)
+    (h : cacheGet m.cache (pathOf m.scheme loc rid) = none)
+    (hw : w m.clock (pathOf m.scheme loc rid) = .err e) :
+    (getResource w parse m rid loc).2 = .error e ∧ (getResource w parse m rid loc).1.cache = m.cache := by
+  simp [getResource, h, hw]
+
+/-! ## bundle_contents -/
+
+/-- A bundle request with a non-empty locale list never panics, whatever the file system does. -/
 theorem C19_get_bundle_no_panic (w : World) (parse : Bytes → Resource) (m : Mgr) (locales ids : List Bytes)
     (h : locales ≠ []) : ∃ r, (getBundle w parse m locales ids).2 = .done r := by
   cases locales with
   | nil => exact absurd rfl h
   | cons l ls => exact ⟨_, rfl⟩
+
+/-- The request performs one `get_resource` per listed id, in order, for the FIRST locale
+(`loads … = the outcomes of these calls`), and its answer is `Ok` iff the failure list is empty. -/
+theorem C19_bundle_result (w : World) (parse : Bytes → Resource) (m : Mgr) (loc : Bytes) (ls ids : List Bytes) :
+    ((loads w parse loc ids m).2.length = ids.length) ∧
+    (getBundle w parse m (loc :: ls) ids).1 = (loads w parse loc ids m).1 ∧
+    ∃ b, (getBundle w parse m (loc :: ls) ids).2 =
+      .done (if (failures (loads w parse loc ids m).2 []).isEmpty then .ok ⟨loc :: ls, b⟩
+             else .error (failures (loads w parse loc ids m).2 [])) := by
+  refine ⟨loads_length _ _ _ _ _, by rw [getBundle_eq], ?_⟩
+  rw [getBundle_eq]
+  refine ⟨(assemble (loads w parse loc ids m).2 Bundle.empty).1, ?_⟩
+  simp only [finish]
+  rw [assemble_errors _ Bundle.empty [] empty_inv (by intro id; simp [empty_abs, Spec.empty, idsOf])]
+
+/-- **bundle_contents, success.**  If the request returns a bundle then every listed resource was
+obtained (`rs`, in list order), the bundle carries the requested locales, its registry is exactly
+C10's fold of `add_resource` over these resources, no id is defined twice among them, and therefore
+every id resolves to its (unique) definition in the listed resources — the bundle contains exactly
+their messages. -/
+theorem C19_bundle_contents_ok (w : World) (parse : Bytes → Resource) (m : Mgr) (loc : Bytes)
+    (ls ids : List Bytes) (fb : FBundle)
+    (h : (getBundle w parse m (loc :: ls) ids).2 = .done (.ok fb)) :
+    fb.locales = loc :: ls ∧
+    ∃ rs : List Resource, (loads w parse loc ids m).2 = rs.map Except.ok ∧
+      fb.reg = Registry.run (rs.map Op.add) ∧
+      (idsOf rs.flatten).Nodup ∧
+      (∀ id, fb.reg.abs id = firstDef rs.flatten id) ∧
+      (∀ id, getMessage fb.reg id = match firstDef rs.flatten id with
+        | some (.message v a) => some ⟨id, v, a⟩
+        | _ => none) := by
+  rw [getBundle_eq] at h
+  simp only [finish, Outcome.done.injEq] at h
+  split at h
+  · rename_i hempty
+    simp only [Except.ok.injEq] at h
+    subst h
+    have hnil : (assemble (loads w parse loc ids m).2 Bundle.empty).2 = [] := by
+      simpa [List.isEmpty_iff] using hempty
+    obtain ⟨rs, h1, h2, h3⟩ := assemble_ok _ _ hnil
+    have hreg : (assemble (loads w parse loc ids m).2 Bundle.empty).1 = Registry.run (rs.map Op.add) := h2
+    have habs : ∀ id, (Registry.run (rs.map Op.add)).abs id = firstDef rs.flatten id := by
+      intro id
+      have := (foldl_refines (rs.map Op.add) Bundle.empty Spec.empty empty_inv empty_abs).2
+      unfold Registry.run
+      rw [this, List.foldl_map]
+      exact specAdd_fold_lookup rs Spec.empty id
+    have hinv : (Registry.run (rs.map Op.add)).Inv :=
+      (foldl_refines (rs.map Op.add) Bundle.empty Spec.empty empty_inv empty_abs).1
+    refine ⟨rfl, rs, h1, hreg, (adds_clean_nodup rs Bundle.empty empty_inv h3).1, ?_, ?_⟩
+    · intro id; simp only [hreg]; exact habs id
+    · intro id
+      simp only [hreg]
+      unfold getMessage
+      rw [getEntryMessage_eq _ hinv id, habs id]
+      cases firstDef rs.flatten id with
+      | none => rfl
+      | some d => cases d <;> rfl
+  · simp at h
+
+/-- **bundle_contents, failure.**  If the request fails, the error list is non-empty and is exactly
+the list of ALL failures in resource order: for each listed resource its I/O error if it could not
+be read, otherwise one `Overriding{kind,id}` (in source order) for every entry whose id already
+occurs in the resources obtained before it or earlier in the resource itself; unreadable resources
+do not hide later ones. -/
+theorem C19_bundle_contents_err (w : World) (parse : Bytes → Resource) (m : Mgr) (loc : Bytes)
+    (ls ids : List Bytes) (errs : List MgrError)
+    (h : (getBundle w parse m (loc :: ls) ids).2 = .done (.error errs)) :
+    errs ≠ [] ∧ errs = failures (loads w parse loc ids m).2 [] := by
+  obtain ⟨_, _, b, hb⟩ := C19_bundle_result w parse m loc ls ids
+  rw [hb] at h
+  simp only [Outcome.done.injEq] at h
+  split at h
+  · simp at h
+  · rename_i hne
+    simp only [Except.error.injEq] at h
+    subst h
+    exact ⟨by simpa [List.isEmpty_iff] using hne, rfl⟩
+
+/-! ## load_once -/
+
+/-- **load_once.**  After ANY request history against ANY file-system history:
+(1) the log lists the reads the manager performed, numbered consecutively, each with the answer the
+    file system gave at that moment;
+(2) once a path has been read successfully it is never read again (so each path has at most one
+    successful read — `C19_at_most_one_successful_read`);
+(3) the cache holds exactly the paths that were read successfully, each with the parse of the content
+    that was read then. -/
+theorem C19_load_once (w : World) (parse : Bytes → Resource) (scheme : Bytes) (reqs : List Req) :
+    let m := (runReqs w parse scheme reqs).mgr
+    (m.log.map (·.tick) = List.range m.clock ∧ ∀ e ∈ m.log, e.result = w e.tick e.path) ∧
+    m.log.Pairwise (fun e e' => IsOk e → e'.path ≠ e.path) ∧
+    (∀ p r, cacheGet m.cache p = some r ↔
+      ∃ e ∈ m.log, e.path = p ∧ ∃ c, e.result = .ok c ∧ r = parse c) := by
+  have h := (foldl_stepReq_step w parse reqs (Sys.new scheme) (new_inv w parse scheme)).1
+  refine ⟨⟨h.ticks, h.faithful⟩, h.once, fun p r => ⟨h.ok_of_cached p r, ?_⟩⟩
+  rintro ⟨e, he, hp, c, hc, hr⟩
+  subst hp hr
+  exact h.cached_of_ok e he c hc
+
+/-- each path has at most one successful read in the whole history -/
+theorem C19_at_most_one_successful_read (w : World) (parse : Bytes → Resource) (scheme : Bytes)
+    (reqs : List Req) (e₁ e₂ : LogEntry)
+    (h₁ : e₁ ∈ (runReqs w parse scheme reqs).mgr.log) (h₂ : e₂ ∈ (runReqs w parse scheme reqs).mgr.log)
+    (ok₁ : IsOk e₁) (ok₂ : IsOk e₂) (hp : e₁.path = e₂.path) : e₁ = e₂ := by
+  have h := (C19_load_once w parse scheme reqs).2.1
+  generalize (runReqs w parse scheme reqs).mgr.log = l at h h₁ h₂
+  obtain ⟨i, hi, rfl⟩ := List.mem_iff_getElem.1 h₁
+  obtain ⟨j, hj, rfl⟩ := List.mem_iff_getElem.1 h₂
+  rw [List.pairwise_iff_getElem] at h
+  rcases Nat.lt_trichotomy i j with hij | hij | hij
+  · exact absurd hp.symm (h i j hi hj hij ok₁)
+  · subst hij; rfl
+  · exact absurd hp (h j i hj hi hij ok₂)
+
+/-- **later requests see the first-loaded content.**  If at some point of a history the path of
+`(locale, res_id)` has been read successfully with content `c`, then after ANY further requests —
+whatever happens to the file meanwhile — `get_resource` for that path answers `parse c` from the
+cache, without a read and without changing the manager. -/
+theorem C19_first_loaded_content_sticks (w : World) (parse : Bytes → Resource) (scheme : Bytes)
+    (reqs reqs' : List Req) (rid loc : Bytes) (e : LogEntry) (c : Bytes)
+    (he : e ∈ (runReqs w parse scheme reqs).mgr.log) (hp : e.path = pathOf scheme loc rid)
+    (hc : e.result = .ok c) :
+    getResource w parse (runReqs w parse scheme (reqs ++ reqs')).mgr rid loc
+      = ((runReqs w parse scheme (reqs ++ reqs')).mgr, .ok (parse c)) := by
+  have h0 := foldl_stepReq_step w parse reqs (Sys.new scheme) (new_inv w parse scheme)
+  have h1 := foldl_stepReq_step w parse reqs' _ h0.1
+  have hrun : runReqs w parse scheme (reqs ++ reqs') =
+      reqs'.foldl (fun s r => (stepReq w parse s r).1) (runReqs w parse scheme reqs) := by
+    simp [runReqs, List.foldl_append]
+  rw [hrun]
+  have hs := h0.2.trans h1.2
+  have hscheme : (reqs'.foldl (fun s r => (stepReq w parse s r).1) (runReqs w parse scheme reqs)).mgr.scheme
+      = scheme := hs.scheme
+  apply getResource_of_loaded w parse _ rid loc h1.1 e
+  · exact (h1.2.log_prefix).subset he
+  · rw [hp]; exact congrArg (fun s => pathOf s loc rid) hscheme.symm
+  · exact hc
+
+/-! ## bundles_lazy_in_order -/
+
+/-- **lazy**: creating the multi-locale iterator reads nothing and changes nothing in the manager. -/
+theorem C19_get_bundles_is_lazy (w : World) (parse : Bytes → Resource) (s : Sys) (locales ids : List Bytes) :
+    (stepReq w parse s (.openIter locales ids)).1.mgr = s.mgr ∧
+    (stepReq w parse s (.openIter locales ids)).1.iters = s.iters ++ [⟨locales, ids, 0⟩] :=
+  ⟨rfl, rfl⟩
+
+/-- **one result per locale, in order, computed when pulled**: the `next()` that finds locale number
+`idx` is exactly the single-locale bundle request for that locale against the manager and the file
+system as they are at that moment, and advances the iterator by one. -/
+theorem C19_next_is_single_locale_request (w : World) (parse : Bytes → Resource) (m : Mgr)
+    (it : BundlesIter) (loc : Bytes) (h : it.locales[it.idx]? = some loc) :
+    ∃ r, getBundle w parse m [loc] it.ids = ((it.next w parse m).1, .done r) ∧
+      it.next w parse m = ((it.next w parse m).1, { it with idx := it.idx + 1 }, some r) := by
+  rw [next_some _ _ _ _ _ h, getBundle_eq]
+  exact ⟨_, rfl, rfl⟩
+
+/-- past the last locale `next()` answers `None`, reads nothing and changes nothing -/
+theorem C19_next_past_the_end (w : World) (parse : Bytes → Resource) (m : Mgr) (it : BundlesIter)
+    (h : it.locales.length ≤ it.idx) : it.next w parse m = (m, it, none) :=
+  next_none _ _ _ _ (List.getElem?_eq_none h)
+
+/-- **lazy**: a `next()` reads only paths of the locale it is about to yield (never those of a later
+locale), and the cache and log only grow. -/
+theorem C19_next_reads_only_its_locale (w : World) (parse : Bytes → Resource) (scheme : Bytes)
+    (reqs : List Req) (it : BundlesIter) :
+    let m := (runReqs w parse scheme reqs).mgr
+    Step m (it.next w parse m).1
+      (fun p => ∃ loc, it.locales[it.idx]? = some loc ∧ ∃ rid ∈ it.ids, p = pathOf m.scheme loc rid) :=
+  (next_step w parse _ it (foldl_stepReq_step w parse reqs (Sys.new scheme) (new_inv w parse scheme)).1).2
+
+/-- **in order, one per locale**: pulling a fresh iterator `locales.length + k` times yields exactly
+the results of the single-locale requests for `locales` in the given order, followed by `k` times
+`None`. -/
+theorem C19_bundles_in_order (w : World) (parse : Bytes → Resource) (m : Mgr) (locales ids : List Bytes)
+    (k : Nat) :
+    pulls w parse (locales.length + k) m (getBundles locales ids) =
+      ((seqBundles w parse ids locales m).1, ⟨locales, ids, locales.length⟩,
+       (seqBundles w parse ids locales m).2.map some ++ List.replicate k none) := by
+  have := pulls_drop w parse locales ids k locales 0 m (by simp)
+  simpa [getBundles] using this
+
+/-! ## the driver's form of a history -/
+
+/-- A history in which every request is evaluated against its own file-system function — in
+particular against the snapshot of the moment, constant during the request, which is how the
+correspondence driver runs the model (`runPW`, responses included) — is a history against ONE world.
+Hence every theorem above about `runReqs` speaks about the runs that are compared with the
+implementation. -/
+theorem C19_snapshot_runs_are_world_runs (parse : Bytes → Resource) (scheme : Bytes)
+    (steps : List (World × Req)) :
+    ∃ W : World,
+      (runPW parse (Sys.new scheme) steps).1 = runReqs W parse scheme (steps.map (·.2)) ∧
+      (runPW parse (Sys.new scheme) steps).2 = resps W parse (Sys.new scheme) (steps.map (·.2)) :=
+  piecewise_glue parse steps (Sys.new scheme)
+
+/-! ## non-vacuity (tests on literals, labelled as such) -/
+
+section Examples
+private def A : Id := [65]
+private def sch : Bytes := [120, 47] ++ localePat ++ [47] ++ resIdPat     -- "x/{locale}/{res_id}"
+private def pl : Bytes := [112, 108]
+private def rid : Bytes := [109]
+private def pth : Bytes := [120, 47, 112, 108, 47, 109]                    -- "x/pl/m"
+/-- the file exists with content `[1]` for reads 0 and 1, then with content `[2]` -/
+private def w0 : World := fun t p => if p = pth then (if t < 2 then .ok [1] else .ok [2]) else .err .notFound
+private def p0 (c : Bytes) : Resource := [.message A (some c) []]
+
+/-- test: the scheme is an instance of `C19_path_substitution` -/
+example : pathOf sch pl rid = pth := by decide
+/-- test: two requests, the file changes in between, one read, first content served twice -/
+example :
+    let s := runReqs w0 p0 sch [.bundle [pl] [rid], .bundle [pl] [rid]]
+    s.mgr.log.length = 1 ∧ cacheGet s.mgr.cache pth = some (p0 [1]) := by decide
+/-- test: the same resource listed twice is reported as a duplicate; a missing one as an I/O error -/
+example : (match (getBundle w0 p0 (Mgr.new sch) [pl] [rid, [110], rid]).2 with
+    | .done (.error es) => es | _ => []) = [.io .notFound, .fluent ⟨.message, A⟩] := by decide
+/-- test: a successful request returns the message -/
+example : (match (getBundle w0 p0 (Mgr.new sch) [pl] [rid]).2 with
+    | .done (.ok fb) => getMessage fb.reg A | _ => none) = some ⟨A, some [1], []⟩ := by decide
+end Examples
 
 end FluentProofs.C19
